@@ -25,7 +25,7 @@ func (g *Graph) CutPath(rng *rand.Rand, maxLen int) []*Edge {
 				switch c.C {
 				case "AFTER", "LONG", "EOF", "DATACUT", "BDATCUT", "STARTTLS", "QUIT":
 					continue
-				case "MAIL":
+				case "MAIL", "RSET":
 					if c.A == "panic" {
 						continue
 					}
